@@ -10,7 +10,7 @@ import impl
 import scancorr
 
 PROP_FILES = ["theories/Props/C19.v", "theories/Inst/C19_inst.v"]
-DEPS = ["theories/Proofs/C19_proofs.vo", "theories/Plugins/All.vo", "theories/Gen/Registry.vo", "theories/Gen/Constants.vo",
+DEPS = ["theories/Proofs/C19_proofs.vo", "theories/Proofs/NewlineFacts.vo", "theories/Plugins/All.vo", "theories/Gen/Registry.vo", "theories/Gen/Constants.vo",
         "theories/Gen/Ladders.vo"]
 
 BIDI = ["‪", "‫", "‬", "‭", "‮", "⁦", "⁧", "⁨", "⁩", "‏"]
@@ -148,4 +148,20 @@ def run(R, replay=None):
     for i, tail in mism[:10]:
         R.broken.append({"what": "correspondence: B613 model and bandit differ", "input": cprogs[i]["src"],
                          "implementation": outs[i]["results"], "model_output_excerpt": tail[:800]})
+    # the line splitter the trojan-source check relies on (universal newlines) vs the Newlines model
+    import io
+    import coqlit as L
+    alpha = ["a", "#", " ", "\n", "\r", "\r\n", "\x0c", "\x0b", "\u2028", "\x85", "\u202e", "\x1c", "é"]
+    cases, texts = [], []
+    for _ in range(400 if R.tier == "quick" else 6000):
+        t = "".join(rng.choice(alpha) for _ in range(rng.randint(0, 9)))
+        texts.append(t)
+        cases.append((L.pstr(t), L.lst([L.pstr(x) for x in io.StringIO(t, newline=None).readlines()], "pstr")))
+        R.count("universal-newlines")
+    mm, br = core.unit_corr("From Bandit Require Import Formats.Newlines.\n", "ulines", "pstr", "list pstr", "list_eqb pstr_eqb", cases, label="c19n")
+    R.broken.extend(br)
+    for i, tail in mm[:5]:
+        R.broken.append({"what": "correspondence: io.StringIO(text, newline=None).readlines() differs from the Newlines model", "input": repr(texts[i]),
+                         "implementation": cases[i][1][:200], "model_output_excerpt": tail[:300]})
+    R.evaluations += len(cases)
     R.disagreements_checked = R.evaluations
